@@ -33,7 +33,7 @@ m = {
     'engines': PROPS['engines'],
     'checks': checks,
     'notes': PROPS['notes'],
-    'not_applicable': [{'property_id': p, 'reason': PROPS['not_applicable'].get(p, 'not claimed yet: model and correspondence engine under construction (see DESIGN.md section 9); no check registered')} for p in ALL if p not in PROPS['claimed'] or p in PROPS.get('pending', [])],
+    'not_applicable': [{'property_id': p, 'reason': ('temporarily not claimed, not a statement that the technique does not apply: the model, theorems and engine exist (./check ' + p + '), but /repo has just been repaired in the modelled code and the model is being adapted to the repaired behaviour; it is claimed again once the check passes on the repaired tree (see DESIGN.md section 10)') if p in PROPS.get('pending', []) else PROPS['not_applicable'].get(p, 'not claimed yet: model and correspondence engine under construction (see DESIGN.md section 9); no check registered')} for p in ALL if p not in PROPS['claimed'] or p in PROPS.get('pending', [])],
 }
 json.dump(m, open(os.path.join(ROOT, 'MANIFEST.json'), 'w'), indent=1)
 print('MANIFEST.json:', len(checks), 'checks,', len(m['not_applicable']), 'not applicable')
